@@ -422,6 +422,17 @@ example :
       (run c12ExCfg st [.tick 3, .batch [1] (fun _ => none) true, .handleInfo 3]).map (fun s => peekVal s 1) = some (some (some 7)) := by
   refine ⟨_, rfl, by decide, by decide, by decide, by decide, by decide⟩
 
+/-- a refresh in flight across an eviction (`tick 2` queues the refresh of source 1, the batch is only
+answered after `tick 3` has idle-evicted the entry): the late answer re-inserts the entry, and once it is
+past its TTL again (`tick 5`) it is queued again — `C12_requery_expired` does not care what was outstanding
+before.  (ttl 1, idle 2.) -/
+example :
+    (run { ttl := 1, negTtl := 1, idle := 2, maxBatch := 1 } init
+      ([.submit 1, .batch [1] (fun _ => some 7) false, .handleInfo 0, .deliver 0,
+        .tick 2, .tick 3, .batch [1] (fun _ => some 8) false, .handleInfo 3, .deliver 0,
+        .peek 1 3, .tick 5] : List (Action Nat Nat))).map
+      (fun st => (peekVal st 1, st.pending, st.queried, st.pos)) = some (some (some 8), [1], [1, 1], 1) := by decide
+
 /-- a quiescent reachable state (hypotheses of `C12_every_submission_queried`) -/
 example : Quiescent c12ExCfg (init : State Nat Nat) := by
   intro a ha
